@@ -1,4 +1,5 @@
 import DigModel.Props.C01
+import DigModel.Proofs.RootCauseProgram
 /-
   C04 — Missing dependencies: required means error, optional means zero value.
 
@@ -75,6 +76,28 @@ theorem C04_optional_absorbs_only_missing (env : TyEnv) (k : Key) (opt : Bool) (
       else (.error (.err (.paramSingle k cid e)), s) := by
   simp only [providerStep]
 
+/-- the resolution stage of an Invoke fails by itself only with "missing type" or "cycle"; every other error is a user
+    function's own error or recovered panic (`engine_root`) -/
+theorem C04_resolver_fails_only_for_missing_or_cycle (ctx : Ctx) (hok : AllOk ctx) (fn : Fn) (params : List Param)
+    (s : Nat) (info : Bool) (w : St) (e : DErr) (h : (invokeRun ctx fn params s info w).2.v = .err e) :
+    (∃ ks, e.rootCause = .missingTypes ks) ∨ (∃ p s, e.rootCause = .cycle p s) :=
+  invokeRun_allOk ctx hok fn params s info w e h
+
+/-- an optional parameter never hides a user function's failure (whole resolver, any state): a resolver call that
+    returns normally has logged no failing execution -/
+theorem C04_optional_never_hides_a_failure (ctx : Ctx) (fuel : Nat) (ps : List Param) (c : Nat) (st : St) (args : List Val) (st' : St)
+    (h : buildList ctx fuel ps c st = (.ok args, st')) : ∃ l, st'.log = st.log ++ l ∧ ∀ e ∈ l, e.isFail = false := by
+  obtain ⟨l, hl, hg⟩ := (engine_root ctx fuel).2.2.2.2.2 ps c st
+  rw [h] at hl hg
+  exact ⟨l, hl, hg⟩
+
+/-- whole programs without failing scripts: every error is dig's own and no execution failed -/
+theorem C04_no_user_failure_no_user_error (p : Program) (hok : AllOk p.ctx) : ∀ r ∈ (runProgram p).2,
+    (∀ e, r.v = .err e → DigRoot e ∧ Clean r.ev) ∧ (∀ f x, r.v ≠ .panicUser f x) := program_allOk p hok
+
+#print axioms C04_resolver_fails_only_for_missing_or_cycle
+#print axioms C04_optional_never_hides_a_failure
+#print axioms C04_no_user_failure_no_user_error
 #print axioms C04_required_missing
 #print axioms C04_optional_missing
 #print axioms C04_shallow
